@@ -136,7 +136,7 @@ pub fn cases(ctx: &Ctx) -> Vec<Case> {
         return v;
     }
     let mut rng = Rng::derive(ctx.seed, &[0xC19]);
-    let n = if ctx.quick() { 600 } else { 12000 };
+    let n = if ctx.quick() { 600 } else { 60000 };
     for s in ["", "TEST SEED", "é日本語", &"long".repeat(2500)] {
         v.push(Case::Keygen { seed: s.to_string() });
     }
@@ -274,31 +274,60 @@ pub fn run_case(ctx: &mut Ctx, c: &Case) {
             if der1 != der2 || pem1 != pem2 {
                 return Err("keyderive: same inputs give different key files".into());
             }
-            // expected: both readings of "the secret of the parent" are accepted at every step
-            let mut candidates: Vec<[u8; 32]> = vec![parent_stored];
-            let mut observed_reading = "unknown";
+            // expected: both readings of "the secret of the parent" (stored bytes / clamped bytes) are accepted,
+            // but ONE reading has to be used throughout: along the steps of one derivation, and for parents of
+            // either key type (a tree that clamps the secrets of some parents only makes the keys derived
+            // from them by every released version unrecoverable). mask: bit 0 = a step used the stored
+            // bytes, bit 1 = a step used the clamped bytes (steps where both are equal set nothing)
+            let mut candidates: Vec<([u8; 32], u8)> = vec![(parent_stored, 0)];
             for p in paths {
-                let mut next = Vec::new();
-                for ikm in &candidates {
-                    for (label, ik) in [("stored", *ikm), ("clamped", clamp(*ikm))] {
+                let mut next: Vec<([u8; 32], u8)> = Vec::new();
+                for (ikm, mask) in &candidates {
+                    for (bit, ik) in [(1u8, *ikm), (2u8, clamp(*ikm))] {
+                        let eff = if clamp(*ikm) == *ikm { 0 } else { bit };
                         let s = derive_step(&ik, p);
-                        if !next.iter().any(|(x, _)| *x == s) {
-                            next.push((s, label));
+                        if !next.iter().any(|(x, m)| *x == s && *m == (mask | eff)) {
+                            next.push((s, mask | eff));
                         }
                     }
                 }
-                candidates = next.iter().map(|x| x.0).collect();
-                if let Some((_, l)) = next.iter().find(|(s, _)| *s == stored || clamp(*s) == stored) {
-                    observed_reading = l;
-                }
+                candidates = next;
                 if candidates.len() > 64 {
                     candidates.truncate(64);
                 }
             }
-            let Some(exp) = candidates.iter().find(|s| **s == stored || clamp(**s) == stored) else {
+            let matching: Vec<&([u8; 32], u8)> = candidates.iter().filter(|(s, _)| *s == stored || clamp(*s) == stored).collect();
+            let Some((exp, mask)) = matching.iter().find(|(_, m)| *m != 3).or(matching.first()).map(|x| (&x.0, x.1)) else {
                 return Err("keyderive: derived private key differs from HKDF-SHA512(salt=\"PATH DERIVATION\", ikm=parent secret, info=path) -> ChaCha20, applied path by path".into());
             };
-            ctx.count(&format!("keyderive:ikm_reading_of_last_step:{observed_reading}"));
+            let observed_reading = match mask {
+                0 => "indistinguishable",
+                1 => "stored",
+                2 => "clamped",
+                _ => "mixed",
+            };
+            if mask == 3 {
+                return Err("keyderive: parent-secret readings mixed along one derivation (stored bytes at some steps, clamped bytes at others)".into());
+            }
+            if *parent_form >= 2 && (mask == 1 || mask == 2) {
+                // the reading used for an X25519 parent, observed in the same case
+                run_mlar(&dir, &["keygen", &format!("--seed={parent_seed}|x"), "refparent"])?;
+                run_mlar(&dir, &["keyderive", "refparent", "refchild", "--path=r"])?;
+                let (rp, _, _, _) = read_pair(&dir, "refparent")?;
+                let (rc, _, _, _) = read_pair(&dir, "refchild")?;
+                if clamp(rp) != rp {
+                    let a = derive_step(&rp, "r");
+                    let b = derive_step(&clamp(rp), "r");
+                    let xmask = if a == rc || clamp(a) == rc { 1 } else if b == rc || clamp(b) == rc { 2 } else { 0 };
+                    if xmask != 0 && xmask != mask {
+                        return Err(format!("keyderive: parent-secret reading depends on the key type of the parent (Ed25519 parent: {observed_reading} bytes, X25519 parent: {} bytes)", if xmask == 1 { "stored" } else { "clamped" }));
+                    }
+                    if xmask != 0 {
+                        ctx.count("keyderive:reading_compared_between_ed25519_and_x25519_parents");
+                    }
+                }
+            }
+            ctx.count(&format!("keyderive:ikm_reading:{observed_reading}"));
             check_pair(&stored, &public, exp).map_err(|e| format!("keyderive: {e}"))?;
             // composition: derive(p1..pn) == derive(derive(p1..pn-1), pn)
             if paths.len() >= 2 {
